@@ -58,7 +58,7 @@ void harness(void)
 		((sqfs_object_t *)c)->copy = COMP_COPY;
 		((sqfs_object_t *)c)->refcount = 1;
 
-		VERIF_ASSERT(!VERIF_SAME_OBJECT(c, o) && VERIF_RW_OK(c, sizeof(COMP_T)),
+		VERIF_ASSERT(C19_DISTINCT(c, o) && VERIF_RW_OK(c, sizeof(COMP_T)),
 			     C19_OB("fresh"));
 		VERIF_ASSERT(((sqfs_u8 *)c)[k] == v, C19_OB("fresh"));
 		VERIF_ASSERT(COMP_OWNED_FRESH(o, c), C19_OB("fresh.owned_state"));
